@@ -6,6 +6,7 @@ import thermosteam as tmo
 from symx import core
 from . import common as C
 from . import streams as S
+from . import c11
 
 ID = 'C13'
 REAL_REPLAY = False
@@ -28,6 +29,8 @@ def setup(mode):
     if sym:
         C.patch(S.SYM_MODULES)
         C.setg(C.mod('thermosteam.base.sparse').SparseVector, 'dtype', core.symfloat)
+    c11.install(sym)        # package with unknown molar volumes for the views of linked streams
+
 
 
 def mk(E, name, kind, th):
@@ -325,6 +328,10 @@ def groups(tier):
                                   ['l', 'g', 'ms:lg', 'ms1:l', 'ms1:g', 's', 'msP:g', 'ms:ls'] if not q else ['l', 'g', 'ms:lg', 'ms1:l', 's', 'msP:g', 'ms:ls']),
                       dict(max_paths=400000)),
         'proxy-and-links': (g_sharing(), dict(max_paths=400000)),
+        # linking shares exactly the selected parts: with the phase NOT linked, the mass / volumetric views of the
+        # two streams follow their own phases (C11's sequence explorer: link, then a phase change or a write)
+        'views-of-partially-linked-streams': (c11.g_sequences(2, ['l'], [['link'], ['phase:=', 'write-other']], check_last_only=True),
+                                              dict(max_paths=400000, qtimeout_ms=20000)),
         'stream-pickles': (g_pickle(), dict(max_paths=400000)),
         'object-pickles': (g_pickle_objects(), {}),
     }
